@@ -95,3 +95,9 @@ Theorem C05_fixed_doc_place :
   agrees (cfg_of [WPublic] true true) w_docplace /\ kept_ids (cfg_of [WPublic] true true) w_docplace = [1; 2; 3].
 Proof. exact fixed_doc_place. Qed.
 Print Assumptions C05_fixed_doc_place.
+
+Theorem C05_fixed_module_modprocedure :
+  agrees (cfg_of [WPublic] true false) w_modproc /\ kept_ids (cfg_of [WPublic] true false) w_modproc = [1; 2] /\
+  pages (cfg_of [WPublic] true false) w_modproc = [2].
+Proof. exact fixed_module_modprocedure. Qed.
+Print Assumptions C05_fixed_module_modprocedure.
